@@ -78,25 +78,26 @@ def _grads(spec, case, gradient):
         for (n, k), (w1, w2) in weights.items():
             s = out.detector_states[n][k]
             tot = tot + jnp.sum(w1 * jnp.real(s)) + jnp.sum(w2 * jnp.imag(s))
-        return tot
+        fmax = jnp.maximum(jnp.max(jnp.abs(out.fields.E)), jnp.max(jnp.abs(out.fields.H)))
+        return tot, jax.lax.stop_gradient(fmax)
 
     if mag:
-        val, (ge, gm) = jax.value_and_grad(loss, argnums=(0, 1))(jnp.asarray(ie), jnp.asarray(im))
+        (val, fmax), (ge, gm) = jax.value_and_grad(loss, argnums=(0, 1), has_aux=True)(jnp.asarray(ie), jnp.asarray(im))
         gm = np.asarray(gm)
     else:
-        val, ge = jax.value_and_grad(loss, argnums=0)(jnp.asarray(ie), im)
+        (val, fmax), ge = jax.value_and_grad(loss, argnums=0, has_aux=True)(jnp.asarray(ie), im)
         gm = None
     interior = np.ones(tuple(spec["shape"]), dtype=bool)
     for p in b.objects.pml_objects:
         interior[p.grid_slice] = False
-    return float(val), np.asarray(ge), gm, interior
+    return float(val), np.asarray(ge), gm, interior, float(fmax)
 
 
 def body(ctx, case):
     spec = case["scene"]
     T = spec["steps"]
-    v_ad, ge_ad, gm_ad, interior = _grads(spec, case, {"method": "checkpointed", "n": case["ad_ckpt"]})
-    v_rv, ge_rv, gm_rv, _ = _grads(spec, case, {"method": "reversible", "ckpt": case["rev_ckpt"]})
+    v_ad, ge_ad, gm_ad, interior, fmax = _grads(spec, case, {"method": "checkpointed", "n": case["ad_ckpt"]})
+    v_rv, ge_rv, gm_rv, _, _ = _grads(spec, case, {"method": "reversible", "ckpt": case["rev_ckpt"]})
     npml = sum(1 for f in spec["faces"].values() if f["kind"] == "pml")
     lossy = "sigE" in spec["background"] or any(("sigE" in o["material"] or "sigH" in o["material"]) for o in spec["objects"])
     ctx.classify(f"pml_faces={min(npml, 3)}{'+' if npml > 3 else ''}", "lossy" if lossy else "lossless",
@@ -108,10 +109,14 @@ def body(ctx, case):
     g_rv = ge_rv[:, interior]
     gmax = float(np.abs(g_ad).max()) if g_ad.size else 0.0
     nz = int((np.abs(g_ad) > 1e-12 * max(gmax, 1e-300)).sum())
-    ctx.nontrivial(gmax > 1e-30 and nz >= 10)
     # an identically zero exact gradient (detector never sees a field) vs. 1e-54 underflow residue of the reverse
     # sweep is not a disagreement: gradients below 1e-30 absolute are treated as zero on both sides
-    FLOOR = 1e-30
+    # With unit-scale cotangent weights the natural size of d loss / d inv_eps is the field amplitude F (F^2 for the
+    # quadratic detectors). When the exact gradient is identically zero (no field ever reaches a recording detector),
+    # the reverse sweep's reconstruction round-off (1e-17 relative) times the cotangent still leaves ~1e-20 residues:
+    # everything below 1e-9 * max(F, F^2) is treated as zero on both sides.
+    FLOOR = max(1e-30, 1e-9 * max(fmax, fmax * fmax))
+    ctx.nontrivial(gmax > FLOOR and nz >= 10)
     if gmax < FLOOR and float(np.abs(g_rv).max() if g_rv.size else 0.0) < FLOOR:
         ctx.classify("zero-gradient")
         return
@@ -120,7 +125,7 @@ def body(ctx, case):
               metric="grad_eps_err")
     if gm_ad is not None:
         a, r = gm_ad[:, interior], gm_rv[:, interior]
-        sc = max(float(np.abs(a).max()), float(np.abs(r).max()), 1e-30)
+        sc = max(float(np.abs(a).max()), float(np.abs(r).max()), FLOOR)
         ctx.close(r, a, scale=sc, tol=1e-9,
                   msg=f"d loss / d inv_permeability outside PML: reversible(ckpt={case['rev_ckpt']}) != checkpointed autodiff",
                   metric="grad_mu_err")
